@@ -97,6 +97,24 @@ func encodeCol(col proto.Column, pre []byte) (state, body []byte, err error) {
 
 var errPrepare = fmt.Errorf("prepare")
 
+// encodeColFresh: state and column into a zero proto.Buffer (the column is prepared already)
+func encodeColFresh(col proto.Column) (out []byte, err error) {
+	defer func() {
+		if p := recover(); p != nil {
+			err = fmt.Errorf("panic: %v", p)
+		}
+	}()
+	if col.Rows() == 0 {
+		return nil, nil // as encodeCol and EncodeRawBlock: nothing is written for a column without rows
+	}
+	var b proto.Buffer
+	if s, ok := col.(proto.StateEncoder); ok {
+		s.EncodeState(&b)
+	}
+	col.EncodeColumn(&b)
+	return b.Buf, nil
+}
+
 // decodeCol decodes into a fresh column of spec s, as Results.DecodeResult does after Reset.
 func decodeCol(s c14ColSpec, rows int, in []byte) (col proto.Column, left int, err error, crashed bool) {
 	defer func() {
@@ -261,6 +279,10 @@ func c01One(h *H, s c14ColSpec, rows int, emit bool) *c01Case {
 		s2, b2, e2 := encodeCol(col, nil)
 		if e2 != nil || !bytes.Equal(s2, state) || !bytes.Equal(b2, body) {
 			oracle = "FAIL:uuid/prefix: bytes depend on what the buffer already held"
+		}
+		// and into a buffer that was never used: spare capacity that is zero, not 0xA5
+		if fresh, e3 := encodeColFresh(col); e3 != nil || !bytes.Equal(fresh, append(append([]byte{}, state...), body...)) {
+			oracle = "FAIL:uuid/prefix: bytes depend on what the buffer's spare capacity held (a fresh buffer gives other bytes than a reused one)"
 		}
 		if tup, isT := col.(proto.ColTuple); col.Rows() != rows && !(isT && len(tup) == 0) {
 			oracle = "FAIL:Rows() after fill"
